@@ -483,7 +483,7 @@ def run(ctx):
     import os
     import traceback
     only = os.environ.get("C02_ONLY", "")
-    for modname in ("props.c02_odt", "props.c02_rtf", "props.c02_pptx", "props.c02_odfx", "props.c02_odp"):
+    for modname in ("props.c02_odt", "props.c02_rtf", "props.c02_pptx", "props.c02_odfx", "props.c02_odp", "props.c02_misc"):
         if only and modname.split("_")[-1] not in only.split(","):
             continue
         try:
@@ -669,7 +669,7 @@ def replay(ctx, rp):
     fmt = rp.get("format") or key.split(":")[0]
     if fmt != "docx":
         try:
-            mod = importlib.import_module({"odt": "props.c02_odt", "rtf": "props.c02_rtf", "pptx": "props.c02_pptx", "ods": "props.c02_odfx", "odp": "props.c02_odfx", "odf": "props.c02_odfx"}.get(fmt, "props.c02_" + fmt))
+            mod = importlib.import_module({"odt": "props.c02_odt", "rtf": "props.c02_rtf", "pptx": "props.c02_pptx", "xlsx": "props.c02_misc", "mbox": "props.c02_misc", "plain": "props.c02_misc", "ods": "props.c02_odfx", "odp": "props.c02_odfx", "odf": "props.c02_odfx"}.get(fmt, "props.c02_" + fmt))
         except ModuleNotFoundError:
             mod = None
         if mod is not None and hasattr(mod, "replay_part"):
